@@ -11,7 +11,9 @@ package c12
 // processor of the target, as query.TaskHandler.process does it: run on a pool, a returned error
 // becomes an error response on the requester's stream), the streams (response -> task manager of
 // the receiver, as the task client's receive loop does it), the pool on which a broker handles
-// responses (inline, see inlinePool), the delivery order of the leaf responses of one request, and the
+// responses (inline, see inlinePool), the delivery order of the leaf responses of one request, the
+// points at which they are delivered relative to the sender's requests (after all requests, or inside the
+// transport's SendRequest while the sender still has requests to send: Sched, see sched_test.go), and the
 // state manager answers (Choose / GetDatabaseCfg mirror coordinator/broker's stateManager, or are
 // delegated to a real one: field State).
 
@@ -49,6 +51,7 @@ type respObs struct {
 	From     string   `json:"from"`
 	Err      string   `json:"err,omitempty"`
 	Series   int      `json:"series"`  // time series in the payload
+	Bytes    int      `json:"bytes"`   // size of the payload
 	Specs    int      `json:"specs"`   // aggregator specs in the payload
 	Dropped  bool     `json:"dropped"` // the receiver's task manager knows no task of this request id
 	Groups   []string `json:"-"`       // group tags of the time series in the payload
@@ -128,6 +131,20 @@ type xcluster struct {
 	// receiver (nil: canonical order = sorted by sender name).
 	Order func(receiver string, arrived []string) []string
 
+	// Concurrent: the buffered leaf responses of one request are handed to the receiver from one goroutine
+	// each, all released by a barrier at the same instant (instead of one after the other); with a
+	// multi-worker response pool (newXClusterPool) the receiver then handles them concurrently.
+	Concurrent bool
+	handing    sync.WaitGroup // hand-over goroutines of the Concurrent mode
+
+	// Sched, when set, replaces the "all responses after all requests" delivery for every sender whose
+	// leaf plan has len(Sched.At) targets: responses are handed over at harness-owned points inside the
+	// transport's SendRequest, i.e. while the sender is still sending (see sendSchedule).
+	Sched *sendSchedule
+	sends map[string]*sendState // receiver|request id -> state of a scheduled delivery
+	Sends []sendObs             // scheduled deliveries of the last query
+	Stuck []string              // harness problems of a scheduled delivery (a response that never arrived, ...)
+
 	pending  map[string][]pendingResp // receiver|request id -> buffered responses
 	expect   map[string]int           // receiver|request id -> requests sent by the receiver
 	Obs      []respObs
@@ -141,7 +158,11 @@ type pendingResp struct {
 	resp *protoCommonV1.TaskResponse
 }
 
-func newXCluster(brokers ...string) *xcluster {
+func newXCluster(brokers ...string) *xcluster { return newXClusterPool(0, brokers...) }
+
+// newXClusterPool: workers == 0: every broker handles responses inline (deterministic, see inlinePool);
+// workers > 0: on a production worker pool of that many workers (what the broker runtime creates).
+func newXClusterPool(workers int, brokers ...string) *xcluster {
 	c := &xcluster{
 		brokers: map[string]*xbroker{},
 		leaves:  map[string]*xleaf{},
@@ -150,12 +171,16 @@ func newXCluster(brokers ...string) *xcluster {
 		Timeout: 20 * time.Second,
 		pending: map[string][]pendingResp{},
 		expect:  map[string]int{},
+		sends:   map[string]*sendState{},
 	}
 	c.reqPool = concurrent.NewPool("verif-c12-req", 8, time.Second, metrics.NewConcurrentStatistics("verif-c12-req", linmetric.BrokerRegistry))
 	for _, host := range brokers {
 		b := &xbroker{node: models.StatelessNode{HostIP: host, GRPCPort: 1}}
 		b.name = b.node.Indicator()
 		b.pool = &inlinePool{c: c}
+		if workers > 0 {
+			b.pool = concurrent.NewPool("verif-c12-"+host, workers, time.Second, metrics.NewConcurrentStatistics("verif-c12-"+host, linmetric.BrokerRegistry))
+		}
 		b.taskMgr = query.NewTaskManager(b.pool, linmetric.BrokerRegistry)
 		c.brokers[b.name] = b
 	}
@@ -292,14 +317,26 @@ func (t *xtransport) SendRequest(target string, req *protoCommonV1.TaskRequest) 
 	} else {
 		return fmt.Errorf("no such node %s", target)
 	}
+	var st *sendState
+	sendIdx := -1
 	if _, isLeaf := c.leaves[target]; isLeaf {
 		// the sender will send this plan to every target: that many leaf responses are ordered as one batch
 		plan := models.PhysicalPlan{}
 		if err := encoding.JSONUnmarshal(req.PhysicalPlan, &plan); err != nil {
 			return err
 		}
+		key := t.self + "|" + req.RequestID
 		c.mu.Lock()
-		c.expect[t.self+"|"+req.RequestID] = len(plan.Targets)
+		if sched := c.Sched; sched != nil && len(sched.At) == len(plan.Targets) {
+			if st = c.sends[key]; st == nil {
+				st = &sendState{receiver: t.self, sched: sched, targets: len(plan.Targets), arrived: map[string]*protoCommonV1.TaskResponse{}}
+				c.sends[key] = st
+			}
+			st.contacted = append(st.contacted, target)
+			sendIdx = len(st.contacted) - 1
+		} else {
+			c.expect[key] = len(plan.Targets)
+		}
 		c.mu.Unlock()
 	}
 	back := &xstream{c: c, to: t.self, from: target}
@@ -313,6 +350,10 @@ func (t *xtransport) SendRequest(target string, req *protoCommonV1.TaskRequest) 
 			sendErr(err)
 		}
 	}, sendErr))
+	if st != nil {
+		// harness-owned point: the request is on its way, SendRequest has not returned to the sender yet
+		c.afterSend(st, sendIdx)
+	}
 	return nil
 }
 
@@ -346,7 +387,12 @@ func (s *xstream) Send(resp *protoCommonV1.TaskResponse) error {
 }
 
 func (c *xcluster) handOver(receiver string, p pendingResp) {
-	o := respObs{Receiver: receiver, From: p.from, Err: p.resp.ErrMsg, Series: -1}
+	c.receive(receiver, p, c.observe(receiver, p))
+}
+
+// observe records the response (decoding its payload) and returns its index in Obs.
+func (c *xcluster) observe(receiver string, p pendingResp) int {
+	o := respObs{Receiver: receiver, From: p.from, Err: p.resp.ErrMsg, Series: -1, Bytes: len(p.resp.Payload)}
 	if p.resp.ErrMsg == "" {
 		tsList := &protoCommonV1.TimeSeriesList{}
 		if err := tsList.Unmarshal(p.resp.Payload); err == nil {
@@ -362,7 +408,11 @@ func (c *xcluster) handOver(receiver string, p pendingResp) {
 	idx := len(c.Obs)
 	c.Obs = append(c.Obs, o)
 	c.mu.Unlock()
-	// the task client's receive loop: taskReceiver.Receive(resp, fromNode)
+	return idx
+}
+
+// receive is the task client's receive loop: taskReceiver.Receive(resp, fromNode).
+func (c *xcluster) receive(receiver string, p pendingResp, idx int) {
 	if err := c.brokers[receiver].taskMgr.Receive(p.resp, p.from); err != nil {
 		c.mu.Lock()
 		if idx < len(c.Obs) {
@@ -375,6 +425,14 @@ func (c *xcluster) handOver(receiver string, p pendingResp) {
 func (c *xcluster) deliver(receiver string, resp *protoCommonV1.TaskResponse, from string) {
 	key := receiver + "|" + resp.RequestID
 	c.mu.Lock()
+	if st := c.sends[key]; st != nil {
+		if _, fromLeaf := c.leaves[from]; fromLeaf {
+			st.arrived[from] = resp
+			c.mu.Unlock()
+			c.releaseLate(st)
+			return
+		}
+	}
 	want := c.expect[key]
 	if _, fromLeaf := c.leaves[from]; !fromLeaf || want == 0 {
 		// the answer of an intermediate node, or the receiver sent no request of this id (a
@@ -403,6 +461,25 @@ func (c *xcluster) deliver(receiver string, resp *protoCommonV1.TaskResponse, fr
 	if c.Order != nil {
 		order = c.Order(receiver, names)
 	}
+	if c.Concurrent {
+		barrier := make(chan struct{})
+		var ready sync.WaitGroup
+		for _, n := range order {
+			// decoded for the record before the barrier: behind it there is only the call of Receive
+			idx := c.observe(receiver, byName[n])
+			ready.Add(1)
+			c.handing.Add(1)
+			go func(p pendingResp) {
+				defer c.handing.Done()
+				ready.Done()
+				<-barrier
+				c.receive(receiver, p, idx)
+			}(byName[n])
+		}
+		ready.Wait()
+		close(barrier)
+		return
+	}
 	for _, n := range order {
 		c.handOver(receiver, byName[n])
 	}
@@ -426,9 +503,14 @@ func (c *xcluster) Query(root, db, sqlText string) (*commonmodels.ResultSet, err
 	c.Obs, c.Plans = nil, nil
 	c.pending = map[string][]pendingResp{}
 	c.expect = map[string]int{}
+	c.sends, c.Sends, c.Stuck = map[string]*sendState{}, nil, nil
 	c.mu.Unlock()
 	ctx, cancel := context.WithTimeout(context.Background(), c.Timeout)
 	defer cancel()
+	// every response of a scheduled delivery has reached its receiver (or was refused by it) before the
+	// query is over for the harness, whatever the root made of them
+	defer c.quiesce()
+	defer c.handing.Wait()
 	rs, err := query.MetricDataSearch(ctx, &models.ExecuteParam{Database: db, SQL: sqlText}, q, &query.SearchMgr{
 		Timeout:      c.Timeout,
 		CurNode:      b.node,
